@@ -44,24 +44,28 @@ def make_jobs(ctx):
     jobs.append(lem)
     rmax = 512 if ctx.tier == "thorough" else int(__import__("os").environ.get("RMAX", "300"))
     # unbounded in the length: inductive loop contract on the chunking loop of wasiRandomGet
-    from ..core import inject_loop_contracts
-    inj = inject_loop_contracts(ctx, "wasi/wasi.c", [(r"while \(result == 0 && filled < bufferLength\)(?=\s*\{)",
-        "        __CPROVER_assigns(filled, result, g_ev_calls, g_ev_last, g_ev_ptr, g_ev_len, g_ev_entropy_total, g_ev_entropy_lo, g_ev_entropy_hi, g_ev_entropy_gap, __CPROVER_object_whole(g_ev_n), __CPROVER_object_whole(g_ev_seq), g_ev_cur, __CPROVER_object_whole(g_ev_seq_res), __CPROVER_object_whole(g_ev_seq_errno))\n"
-        "        __CPROVER_loop_invariant(filled <= bufferLength && result == 0)\n"
-        "        __CPROVER_loop_invariant(g_ev_calls >= 0 && g_ev_calls == g_ev_n[EV_getentropy] && g_ev_calls <= 16777216 && ((unsigned long long)g_ev_calls * 256 == filled || (filled == bufferLength && (unsigned long long)g_ev_calls * 256 >= filled && (unsigned long long)g_ev_calls * 256 < (unsigned long long)filled + 256)))\n"
-        "        __CPROVER_loop_invariant(result != 0 || (g_ev_entropy_total == filled && !g_ev_entropy_gap && (filled == 0 ? g_ev_entropy_lo == 0 : "
-        "(g_ev_entropy_lo == bufferStart && g_ev_entropy_hi == bufferStart + filled))))\n"
-        "        __CPROVER_decreases(bufferLength - filled)"),
-        (r"for \(; i < bufferLength; i\+\+\)(?=\s*\{\s*bufferStart\[i\] = random\(\);)",
-         "        __CPROVER_assigns(i, g_ev_random_calls, __CPROVER_object_whole(bufferStart))\n"
-         "        __CPROVER_loop_invariant(i <= bufferLength && g_ev_random_calls == i)\n"
-         "        __CPROVER_loop_invariant(__CPROVER_same_object(g_fr_ptr, bufferStart) && (__CPROVER_POINTER_OFFSET(g_fr_ptr) < __CPROVER_POINTER_OFFSET(bufferStart) || "
-         "__CPROVER_POINTER_OFFSET(g_fr_ptr) >= __CPROVER_POINTER_OFFSET(bufferStart) + (__CPROVER_size_t)bufferLength) && *g_fr_ptr == g_fr_val)\n"
-         "        __CPROVER_decreases(bufferLength - i)")], "random_u")
-    ju = wasi_job(ctx, "W.random_get.unbounded", "c15_random_u.c", "h_random_u", ["wasi.c:random_get", "wasi.c:wasiRandomGet"], defines=["GMEM=8"], unwind=64, solver="z3",
-                  loop_contracts=True, info=dict(note="every length 0..2^32-1 and every buffer address; loop contract injected at the anchored header 'while (result == 0 && filled < bufferLength)'"))
-    ju.includes = [inj] + ju.includes
-    jobs.append(ju)
+    from ..core import Undecided as _Und, undecided_job
+    try:
+        from ..core import inject_loop_contracts
+        inj = inject_loop_contracts(ctx, "wasi/wasi.c", [(r"while \(result == 0 && filled < bufferLength\)(?=\s*\{)",
+            "        __CPROVER_assigns(filled, result, g_ev_calls, g_ev_last, g_ev_ptr, g_ev_len, g_ev_entropy_total, g_ev_entropy_lo, g_ev_entropy_hi, g_ev_entropy_gap, __CPROVER_object_whole(g_ev_n), __CPROVER_object_whole(g_ev_seq), g_ev_cur, __CPROVER_object_whole(g_ev_seq_res), __CPROVER_object_whole(g_ev_seq_errno))\n"
+            "        __CPROVER_loop_invariant(filled <= bufferLength && result == 0)\n"
+            "        __CPROVER_loop_invariant(g_ev_calls >= 0 && g_ev_calls == g_ev_n[EV_getentropy] && g_ev_calls <= 16777216 && ((unsigned long long)g_ev_calls * 256 == filled || (filled == bufferLength && (unsigned long long)g_ev_calls * 256 >= filled && (unsigned long long)g_ev_calls * 256 < (unsigned long long)filled + 256)))\n"
+            "        __CPROVER_loop_invariant(result != 0 || (g_ev_entropy_total == filled && !g_ev_entropy_gap && (filled == 0 ? g_ev_entropy_lo == 0 : "
+            "(g_ev_entropy_lo == bufferStart && g_ev_entropy_hi == bufferStart + filled))))\n"
+            "        __CPROVER_decreases(bufferLength - filled)"),
+            (r"for \(; i < bufferLength; i\+\+\)(?=\s*\{\s*bufferStart\[i\] = random\(\);)",
+             "        __CPROVER_assigns(i, g_ev_random_calls, __CPROVER_object_whole(bufferStart))\n"
+             "        __CPROVER_loop_invariant(i <= bufferLength && g_ev_random_calls == i)\n"
+             "        __CPROVER_loop_invariant(__CPROVER_same_object(g_fr_ptr, bufferStart) && (__CPROVER_POINTER_OFFSET(g_fr_ptr) < __CPROVER_POINTER_OFFSET(bufferStart) || "
+             "__CPROVER_POINTER_OFFSET(g_fr_ptr) >= __CPROVER_POINTER_OFFSET(bufferStart) + (__CPROVER_size_t)bufferLength) && *g_fr_ptr == g_fr_val)\n"
+             "        __CPROVER_decreases(bufferLength - i)")], "random_u")
+        ju = wasi_job(ctx, "W.random_get.unbounded", "c15_random_u.c", "h_random_u", ["wasi.c:random_get", "wasi.c:wasiRandomGet"], defines=["GMEM=8"], unwind=64, solver="z3",
+                      loop_contracts=True, timeout=900, info=dict(note="every length 0..2^32-1 and every buffer address; loop contract injected at the anchored header 'while (result == 0 && filled < bufferLength)'"))
+        ju.includes = [inj] + ju.includes
+        jobs.append(ju)
+    except _Und as e:      # the loops moved: the contracts have to be re-anchored; the bounded run below still checks the function
+        jobs.append(undecided_job("W.random_get.unbounded", str(e), ["wasi.c:wasiRandomGet"]))
     jobs.append(wasi_job(ctx, "W.random_get", src, "h_random", ["wasi.c:random_get", "wasi.c:wasiRandomGet"], defines=["GMEM=32", "RANDOM_MAX=%du" % rmax],
                          unwind=rmax // 256 + 40, unwindset="wasiRandomGet.1:%d" % (rmax + 2), timeout=(3000 if ctx.tier == "thorough" else None),
                          bounded="lengths 0..300 in the quick tier, 0..1024 in the thorough tier (the chunking loop and the unconditional random() pass are uniform in the length)",
